@@ -39,6 +39,13 @@ SMALL_CORPUS = [
 ]
 
 
+# character level: every character sequence up to a length bound over an alphabet of the characters the scanner treats
+# specially (quotes, backslash, interpolation, escapes, digits/exponent, comment, line ends, NUL) and characters of 2 and 4
+# bytes, placed bare and inside each lexical context that scans character by character
+CHARS = ["'", '"', "\\", "$", "{", "}", "\u00e9", "\U0001F600", "\n", "n", "u", "1", "a", "/", "*", " ", ".", "e", "\r", "\t", "\x00", "@", "-", "x"]
+CHAR_CTX = [("bare", "%s"), ("sq", "'%s'"), ("dq", '"%s"'), ("interp", "'a${%s}b'"), ("comment", "// %s\n1;"), ("number", "1%s"), ("ident", "let v%s = 1;")]
+
+
 def tokens(src):
     return [t for t in TOK.findall(src)]
 
@@ -119,6 +126,8 @@ class C15(Check):
     level = "exploration"
     horizon_ms = 20000
     rule = ("inputs: (seq) all token sequences up to the tier's length bound over one lexeme per token kind; (mut) every "
+            "(chars) every character sequence of length <= 3 (<= 4 thorough for the bare/string/interpolation contexts) over a 24 character alphabet "
+            "(quotes, backslash, $, braces, 2- and 4-byte characters, line ends, NUL, escape letters, digits, comment characters) in 7 lexical contexts; "
             "single-token deletion, duplication, adjacent swap and replacement by each of %d lexemes, every byte prefix and "
             "every single-byte replacement by each of 7 bytes, of each corpus program; (bound) nesting/count boundary family. "
             "Each input: compile-only run, full run (step limit 200k), REPL session [definition, input, probe]. "
@@ -143,6 +152,12 @@ class C15(Check):
                     yield ("seq", " ".join(t))
             for t in itertools.product(REDUCED, repeat=3):
                 yield ("seq", " ".join(t))
+        # (chars)
+        for ctx, tmpl in CHAR_CTX:
+            top = 3 if not th else (4 if ctx in ("bare", "sq", "interp") else 3)
+            for n in range(1, top + 1):
+                for t in itertools.product(CHARS, repeat=n):
+                    yield ("chars:" + ctx, tmpl % "".join(t))
         # (mut)
         corpus = list(SMALL_CORPUS)
         if th:
